@@ -11,6 +11,10 @@ THEOREMS = [
     "Mpir.Powm.mpz_powm_small_paths_spec",
     "Mpir.Powm.even_modulus_crt",
     "Mpir.Powm.redc_1_spec",
+    "Mpir.Powm.mpz_powm_spec",
+    "Mpir.Powm.mpn_powm_spec",
+    "Mpir.Powm.powlo_spec",
+    "Mpir.Powm.binvert_correct",
 ]
 TRUSTED = ["hand-written models lean/Mpir/Model/Powm.lean (tied by correspondence on every run): mpz_powm follows mpz/powm.c "
            "statement by statement with the result kept as limb vector + size; mpn_powm/powlo/pow_1/n_pow_ui/powm_ui follow the C "
